@@ -409,7 +409,21 @@ def cycle_has_bound(prog, fns):
             if c is None or len(b.succs) != 2:
                 continue
             tested = [q for q in grown if any(x.get("k") == "member" and x.get("qn") == q for x in c.walk())]
-            # range-for over the container counts as a test of it
+            # a container that records the active set bounds the recursion only if the test looks at ALL of it (membership: find / count /
+            # contains over the whole container, or its size against a limit); peeking at one element (back(), front(), [i]) or empty() does not
+            def whole(q):
+                if grown[q].get("k") == "un":
+                    return True            # depth counter: any comparison is a bound
+                for x in c.walk():
+                    if x.get("k") == "call" and "obj" in x and any(y.get("k") == "member" and y.get("qn") == q for y in x.child("obj").walk()):
+                        nm = (x.get("fn") or "").split("::")[-1]
+                        if nm in ("count", "find", "contains", "size"):
+                            return True
+                    if x.get("k") == "call" and (x.get("fn") or "").split("::")[-1] in ("find", "count", "any_of", "find_if", "binary_search", "is_contained") and "obj" not in x and \
+                            any(y.get("k") == "member" and y.get("qn") == q for a_ in x.get("args", []) if a_ >= 0 for y in f.nodes[a_].walk()):
+                        return True
+                return False
+            tested = [q for q in tested if whole(q)]
             if not tested:
                 continue
             # one arm must be able to leave without reaching a recursive call
@@ -509,6 +523,14 @@ def iterator_vars(f):
 # Seeded variants (thorough tier): each re-introduces one defect of the class the
 # rule is about, or is a behaviour-preserving rewrite that must stay silent.
 VARIANTS = [
+    dict(name="rule-variable-guard-checks-innermost-only", file="lib/Ninja/ManifestLoader.cpp",
+         old="      for (const auto& active: context->activeRuleVariables) {\n        if (active == name) {\n          error(\"cycle in rule variables involving '\" + name.str() + \"'\",\n                context->startTok);\n          return;\n        }\n      }",
+         new="      if (!context->activeRuleVariables.empty() &&\n          context->activeRuleVariables.back() == name) {\n        error(\"cycle in rule variables involving '\" + name.str() + \"'\",\n              context->startTok);\n        return;\n      }",
+         expect=("R-RECURSION-BOUND", "variable-expansion")),
+    dict(name="benign-rule-variable-guard-with-std-find", file="lib/Ninja/ManifestLoader.cpp",
+         old="      for (const auto& active: context->activeRuleVariables) {\n        if (active == name) {\n          error(\"cycle in rule variables involving '\" + name.str() + \"'\",\n                context->startTok);\n          return;\n        }\n      }",
+         new="      if (std::find(context->activeRuleVariables.begin(), context->activeRuleVariables.end(), name) != context->activeRuleVariables.end()) {\n        error(\"cycle in rule variables involving '\" + name.str() + \"'\",\n              context->startTok);\n        return;\n      }",
+         expect=None),
     dict(name="lexer-sign-extended-peek", file="lib/Ninja/Lexer.cpp",
          old="  return static_cast<unsigned char>(*bufferPos);", new="  return *bufferPos;",
          expect=("R-EOF-TRUE-END", "peekNextChar")),
